@@ -87,7 +87,7 @@ def _reinit_after_store(ck: Check, repo: Repo) -> None:
 def _reinit_opt_provenance(ck: Check, repo: Repo) -> None:
     fn = repo.fn(MUT, "Mutations.reinit_opt")
     ows = [c for c in calls_in(fn.node, nested=True) if call_name(c) == "OptimizerWrapper"]
-    ck.floor("C02.2", len(ows), 1, "OptimizerWrapper construction in reinit_opt")
+    ck.floor("C02.2", len(ows), 1, "OptimizerWrapper construction in reinit_opt", fn=fn)
     inner = [n for n in ast.walk(fn.node) if isinstance(n, ast.FunctionDef) and n is not fn.node]
     for c in ows:
         lr = get_kw(c, "lr", 2)
@@ -171,12 +171,12 @@ def _shared_rebuilt(ck: Check, repo: Repo) -> None:
     rf = repo.fn(MUT, "Mutations.reinit_from_mutated")
     rcfg = CFG(rf.node)
     rm = [c for c in calls_in(rf.node, nested=True) if call_name(c) == "self.reinit_module"]
-    ck.floor("C02.3", len(rm), 2, "reinit_module calls in reinit_from_mutated (list and single branch)")
+    ck.floor("C02.3", len(rm), 2, "reinit_module calls in reinit_from_mutated (list and single branch)", fn=rf)
     for c in rm:
         ok = len(c.args) == 2 and isinstance(c.args[1], ast.Attribute) and c.args[1].attr == "init_dict" and dotted(c.args[1].value) == dotted(c.args[0])
         ck.ob("C02.3", rf, c, ok, "a shared network is re-created from the init_dict of the very offspring it will shadow")
     loads = [c for c in calls_in(rf.node, nested=True) if last_attr(c) in ("load_state_dict", "load_state_dicts")]
-    ck.floor("C02.3", len(loads), 2, "state loading in reinit_from_mutated")
+    ck.floor("C02.3", len(loads), 2, "state loading in reinit_from_mutated", fn=rf)
     src = ast.unparse(rf.node)
     ck.ob("C02.3", rf, rf.node, "ind_shared.load_state_dict(offspring.state_dict()" in src and "state_dicts = [offspring.state_dict() for offspring in offspring]" in src,
           "the re-created network receives the state dict of the same offspring", construct="reinit_from_mutated: state transfer")
@@ -193,7 +193,7 @@ def _critics_follow(ck: Check, repo: Repo) -> None:
     fn = repo.fn(MUT, "Mutations.architecture_mutate")
     cfg = CFG(fn.node)
     calls = [c for c in calls_in(fn.node) if call_name(c) == "self._apply_arch_mutation"]
-    ck.floor("C02.4", len(calls), 2, "_apply_arch_mutation calls (policy and other eval networks)")
+    ck.floor("C02.4", len(calls), 2, "_apply_arch_mutation calls (policy and other eval networks)", fn=fn)
     pol = [c for c in calls if not any(isinstance(l, (ast.For, ast.While)) and any(x is c for x in ast.walk(l)) for l in ast.walk(fn.node))]
     oth = [c for c in calls if c not in pol]
     ck.ob("C02.4", fn, fn.node, len(pol) == 1 and len(oth) == 1, "one mutation of the policy, one application per other eval network", construct="apply sites")
